@@ -410,6 +410,21 @@ def returns_skipping(g, ctx, update_node, is_exempt=None):
     return out
 
 
+def early_exits_before(g, node):
+    """`return` statements (with or without a value) that can be reached without passing the decision point of `node`:
+    paths on which the function leaves before the work at `node` was even considered"""
+    dp = decision_point(g, node)
+    out = []
+    if dp is None:
+        return out
+    for r, m in g.walk(g.body):
+        if m["k"] == "return":
+            pr = g.cfg.pos1(r)
+            if pr is not None and not g.cfg.dominates(dp, pr):
+                out.append(r)
+    return out
+
+
 def check_sum_over_parts(rule, db, cfgname, qn, nparams, ptypes, part_call_args, extra_ok=None):
     """X::operator()(z) / of_tau: returns 0 iff Vanishing, otherwise += over ALL parts of part(args)."""
     g = db.fn(qn, ptypes=ptypes)
@@ -1040,3 +1055,57 @@ def check_memo_flags(rule, db, cfgname, classes):
                     m.qn.split("::")[-1], fq.split("::")[-1], ", ".join(sorted(x.split("::")[-1] for x in walked)), o.qn.split("::")[-1], ", ".join(ws)), cfgname)
             else:
                 rule.ok(site0, m.loc(s_), "every member function that changes %s resets %s" % (", ".join(sorted(x.split("::")[-1] for x in walked)), fq.split("::")[-1]), cfgname)
+
+
+def check_copy_ctors_complete(rule, db, cfgname, classes, exempt=()):
+    """A user-written copy constructor takes over EVERY data member of its source: each member is initialised / assigned from
+    an expression that depends on the source (directly, or inside a loop that walks one of the source's containers).  A member
+    that is left default-constructed or set to a constant makes the copy a different object (a copied lattice that reports
+    no terms, a copied function that recomputes ...).  Members of reference type and those listed in `exempt` are skipped."""
+    from pv.effects import Effects
+    eff = Effects(db)
+    for cls in classes:
+        rec = db.records.get(cls)
+        if rec is None:
+            continue
+        for c in sorted([x for x in db.fns.values() if x.rec == cls and x.kind == "ctor" and len(x.params) == 1 and x.body is not None and x.body >= 0 and
+                         strip_targs(cls) in strip_targs(x.params[0].get("t") or "") and "&" in (x.params[0].get("t") or "") and "&&" not in (x.params[0].get("t") or "")], key=lambda y: (y.file, y.line)):
+            cctx = Ctx(c, db)
+            src = ("param", c.params[0]["d"], c.params[0]["n"])
+            ms = lambda k_: key_contains(k_, lambda y: y[:2] == src[:2])
+            inits = c.d.get("inits", [])
+            if not any(i.get("written") for i in inits) and not [1 for _, n in c.walk(c.body) if n["k"] not in ("block", "null")]:
+                continue
+            covered, const_only = set(), set()
+            for i in inits:
+                if i.get("field") and i.get("e") is not None and i.get("written"):
+                    (covered if ms(cctx.key(i["e"])) else const_only).add(i["field"])
+                if i.get("base") and i.get("e") is not None and ms(cctx.key(i["e"])):
+                    covered.add("base:" + i["base"])
+            for tgt, j in eff.direct(c):
+                if tgt[0] != "this":
+                    continue
+                fname = tgt[1].split("::")[-1]
+                dep = False
+                try:
+                    dep = ms(cctx.key(j))
+                except Exception:
+                    dep = False
+                if not dep:
+                    for L_ in enclosing_loops(c, j):
+                        ln = c.nodes[L_]
+                        for fld_ in ("init", "c", "range"):
+                            if ln.get(fld_) is not None and any(ms(cctx.key(x)) for x, nn in c.walk(ln[fld_]) if nn["k"] in ("call", "member", "ref", "construct")):
+                                dep = True
+                (covered if dep else const_only).add(fname)
+            site = "%s:copy-takes-every-member" % c.qn
+            miss = []
+            for f_ in rec.get("fields", []):
+                if f_.get("static") or f_["n"] in exempt or "&" in (f_.get("t") or ""):
+                    continue
+                if f_["n"] not in covered:
+                    miss.append(f_["n"] + (" (set to a constant)" if f_["n"] in const_only else " (not initialised from the source)"))
+            if miss:
+                rule.bad(site, c.loc(), "the copy constructor does not take over: %s -- a copy behaves differently from its source" % ", ".join(miss), cfgname)
+            else:
+                rule.ok(site, c.loc(), "every data member is initialised from the source", cfgname)
